@@ -27,6 +27,7 @@ const (
 	vSigTornFlush   = "hh-torn-flush-loses-synced-blocks"
 	vSigBufferedAck = "hh-buffered-ack-lost-on-crash"
 	vSigTornAdvance = "hh-torn-advance-corrupts-head"
+	vSigRefusedSeg  = "hh-empty-false-after-refused-append"
 )
 
 var vHookKinds = []string{"hh.flush.begin", "hh.flush.written", "hh.flush.synced", "hh.advance.written", "hh.advance.synced", "hh.trim", "hh.truncate"}
@@ -34,7 +35,7 @@ var vHookKinds = []string{"hh.flush.begin", "hh.flush.written", "hh.flush.synced
 type vLane struct {
 	node, shard uint64
 	pend        []vBlk
-	phantomOK   bool // a refused over-sized append or a resize may have left an exhausted segment that is not the tail
+	phantomOK   bool // SetMaxSegmentSize (test-only API) may have added a tail segment behind an exhausted one
 	maxSegs     int
 }
 
@@ -271,7 +272,9 @@ func (m *vSM) recoverCrash(rt *rapid.T, op string, target *vLane, cands [][]vBlk
 		m.dropLive()
 		m.root = m.imgRoot
 		for _, l := range m.lanes {
+			m.quiet = true
 			got, err := vDrainCopy(m.laneDir(l), m.seg)
+			m.quiet = false
 			if err != nil {
 				m.fatalf("crash-recovery-read-error", "lane %s: reading the recovered queue failed after %s (model %s): %v; read so far %s", l, op, vBlkIDs(l.pend), err, vRawIDs(got))
 			}
@@ -368,7 +371,7 @@ func (m *vSM) check(rt *rapid.T) {
 		}
 		if !empty && want {
 			if l.phantomOK && nseg > 1 {
-				m.class("empty-false-with-exhausted-extra-segment(relaxed)")
+				m.class("empty-false-after-resize-added-segment(relaxed)")
 			} else {
 				m.fatalf("empty-false-while-nothing-pending", "lane %s: Empty() is false but nothing is pending (segments %d)", l, nseg)
 			}
@@ -407,14 +410,17 @@ func (m *vSM) drawSize(rt *rapid.T, l *vLane, allowOver bool) int {
 		t.mu.RUnlock()
 	}
 	var sz int
-	switch rapid.IntRange(0, 9).Draw(rt, "sizeKind") {
-	case 0, 1, 2, 3:
+	switch k := rapid.IntRange(0, 29).Draw(rt, "sizeKind"); {
+	case k < 14:
 		sz = rapid.IntRange(20, 20+max/3).Draw(rt, "size")
-	case 4, 5:
+	case k < 20:
 		sz = rem + rapid.IntRange(-1, 1).Draw(rt, "remDelta")
-	case 6, 7:
+		if sz > max {
+			sz = max
+		}
+	case k < 25:
 		sz = max - rapid.IntRange(0, 3).Draw(rt, "capDelta")
-	case 8:
+	case k < 29:
 		sz = rapid.IntRange(20, max).Draw(rt, "size")
 	default:
 		if allowOver {
@@ -525,7 +531,6 @@ func (m *vSM) doAppend(rt *rapid.T, l *vLane, viaService bool, buffered bool, cr
 		if !over {
 			m.fatalf("segment-full-for-fitting-block", "ErrSegmentFull for a block of %d bytes, segment size %d", len(blk.Raw), m.seg)
 		}
-		l.phantomOK = true
 		m.class("append-refused:block-larger-than-segment")
 		m.canon = append(m.canon, "append:oversize")
 	default:
@@ -915,7 +920,9 @@ func (m *vSM) actReopen(rt *rapid.T) {
 	m.svc = nil
 	vDurable().opDone(m.root)
 	for _, l := range m.lanes {
+		m.quiet = true
 		got, err := vDrainCopy(m.laneDir(l), m.seg)
+		m.quiet = false
 		if err != nil {
 			m.fatalf("reopen-read-error", "lane %s: reading the closed queue failed: %v", l, err)
 		}
